@@ -556,6 +556,69 @@ Proof.
   destruct E as (p & ->). cbn [bind]. exists p. reflexivity.
 Qed.
 
+(* ---------- 4. what a RetryClient re-subscribes ---------- *)
+Lemma est_lookup_app t a b :
+  est_lookup t (a ++ b) = match est_lookup t a with Some q => Some q | None => est_lookup t b end.
+Proof.
+  induction a as [|[t' q] a IH]; [reflexivity|]. cbn [app est_lookup].
+  destruct (str_eqb t' t); [reflexivity | exact IH].
+Qed.
+
+Lemma str_eqb_sym a b : str_eqb a b = str_eqb b a.
+Proof.
+  destruct (str_eqb a b) eqn:E.
+  - apply str_eqb_eq in E. subst. symmetry. apply str_eqb_refl.
+  - symmetry. apply str_eqb_neq. apply str_eqb_neq in E. congruence.
+Qed.
+
+Lemma est_lookup_unsub t t' est :
+  est_lookup t (est_unsub t' est) = if str_eqb t' t then None else est_lookup t est.
+Proof.
+  unfold est_unsub. induction est as [|[t0 q] est IH]; [destruct (str_eqb t' t); reflexivity|].
+  cbn [filter fst est_lookup].
+  destruct (str_eqb t0 t') eqn:E0; cbn [negb].
+  - apply str_eqb_eq in E0. subst t0. rewrite IH. destruct (str_eqb t' t); reflexivity.
+  - cbn [est_lookup]. rewrite IH. destruct (str_eqb t0 t) eqn:E1; [|reflexivity].
+    apply str_eqb_eq in E1. subst t0. rewrite str_eqb_sym, E0. reflexivity.
+Qed.
+
+Lemma est_lookup_sub t subs : forall est,
+  est_lookup t (est_sub subs est) = last_q t subs (est_lookup t est).
+Proof.
+  induction subs as [|[t' q] subs IH]; intros est; [reflexivity|].
+  cbn [est_sub last_q]. rewrite IH, est_lookup_app, est_lookup_unsub. cbn [est_lookup].
+  destruct (str_eqb t' t); [reflexivity|]. destruct (est_lookup t est); reflexivity.
+Qed.
+
+Lemma est_lookup_unsubs t ts : forall est,
+  est_lookup t (rc_unsubscribe est ts) =
+  if existsb (fun x => str_eqb x t) ts then None else est_lookup t est.
+Proof.
+  unfold rc_unsubscribe. induction ts as [|t' ts IH]; intros est; [reflexivity|].
+  cbn [fold_left existsb]. rewrite IH, est_lookup_unsub.
+  destruct (str_eqb t' t); cbn [orb]; [destruct (existsb _ ts); reflexivity | reflexivity].
+Qed.
+
+(* what is remembered for a filter is the QoS the application asked last (nothing, if it unsubscribed):
+   a function of the request history only *)
+Theorem remembered_is_asked t ops : forall est,
+  est_lookup t (rc_run est ops) = asked t (map fst ops) (est_lookup t est).
+Proof.
+  induction ops as [|[[subs|ts] codes] ops IH]; intros est; [reflexivity| |]; cbn [rc_run map fst asked].
+  - rewrite IH. unfold rc_subscribe. cbn [fst]. rewrite est_lookup_sub. reflexivity.
+  - rewrite IH, est_lookup_unsubs. reflexivity.
+Qed.
+
+(* ... in particular the whole re-subscription (filters, QoS, order, grouping into packets) does not depend
+   on what any broker granted *)
+Theorem resubscription_independent_of_grants ops1 ops2 est :
+  map fst ops1 = map fst ops2 -> resub_requests (rc_run est ops1) = resub_requests (rc_run est ops2).
+Proof.
+  intros H. f_equal. revert ops2 est H.
+  induction ops1 as [|[o1 c1] ops1 IH]; intros [|[o2 c2] ops2] est H; try discriminate H; [reflexivity|].
+  cbn [map fst] in H. injection H as -> H. destruct o2 as [subs|ts]; cbn [rc_run]; apply IH; exact H.
+Qed.
+
 (* ---------- non-vacuity ---------- *)
 Definition ex_msg (q id : N) (pl : list N) : message :=
   {| m_topic := [116]; m_id := id; m_qos := q; m_retain := false; m_dup := false; m_payload := pl |}.
@@ -598,6 +661,13 @@ Proof.
   vm_compute. reflexivity.
 Qed.
 
+(* the demo of the seeded change: a:2, b:1 requested, 0 and 1 granted: a:2, b:1 are re-subscribed *)
+Example ex_resub :
+  resub_requests (rc_run [] [(SSub [([97], 2); ([98], 1)], [0; 1]); (SSub [([97], 1)], [0]); (SUnsub [[98]], [])])
+  = [[([97], 1)]]
+  /\ snd (rc_subscribe [] [([97], 2); ([98], 1)] [0; 1]) = [([97], 0); ([98], 1)].
+Proof. split; reflexivity. Qed.
+
 Example ex_pub_run :
   pub_run (ex_msg 2 7 [1]) (PSend false) [2; 4; 1; 0] =
   [[Some [52; 6; 0; 1; 116; 0; 7; 1]];
@@ -614,3 +684,5 @@ Print Assumptions retry_packets_decode.
 Print Assumptions connect_long_rejected.
 Print Assumptions subscribe_long_rejected.
 Print Assumptions connect_short_packs.
+Print Assumptions remembered_is_asked.
+Print Assumptions resubscription_independent_of_grants.
